@@ -380,6 +380,26 @@ class CFG:
         return out
 
     # -- must-facts ----------------------------------------------------------
+    @staticmethod
+    def _gen_facts(n: "Node"):
+        """facts established by the statement itself: `x = True / False / None` (plain names and attribute chains)"""
+        a = n.ast
+        if n.kind == "stmt" and isinstance(a, ast.Assign) and isinstance(a.value, ast.Constant) and (a.value.value is None or isinstance(a.value.value, bool)):
+            out = []
+            for t in a.targets:
+                from .core import dotted
+                d = dotted(t) if isinstance(t, (ast.Name, ast.Attribute)) else None
+                if d:
+                    if a.value.value is None:
+                        out.append((f"{d} is None", True))
+                        out.append((d, False))
+                    else:
+                        out.append((d, bool(a.value.value)))
+                        if a.value.value is True:
+                            out.append((f"{d} is None", False))
+            return out
+        return []
+
     def must_facts(self, kinds="nx") -> Dict[int, Optional[frozenset]]:
         """Forward intersection dataflow of condition facts.  IN[n] = facts holding on every
         path (over edges of the given kinds) from entry to n, after killing facts whose
@@ -390,12 +410,14 @@ class CFG:
         work = [self.entry]
         out_cache: Dict[int, frozenset] = {}
 
+        gen = {n.id: frozenset(self._gen_facts(n)) for n in self.nodes}
+
         def OUT(nid):
             facts = IN[nid]
             ks = kill[nid]
             if not ks:
                 return facts
-            return frozenset(f for f in facts if not _fact_mentions(f, ks))
+            return frozenset(f for f in facts if not _fact_mentions(f, ks)) | gen[nid]
 
         while work:
             n = work.pop()
@@ -427,12 +449,32 @@ class CFG:
                 continue
             ks = _killed_names(self.nodes[n])
             if ks:
-                facts = [f for f in facts if not _fact_mentions(f, ks)]
+                dying = [f for f in facts if _fact_mentions(f, ks)]
+                keep = [f for f in facts if not _fact_mentions(f, ks)]
+                # what the dying (compound) facts imply about conditions that do not mention the re-bound names survives
+                derived = []
+                if any((" and " in t or " or " in t or t.startswith("not ")) for (t, _p) in dying):
+                    atoms = set()
+                    for (t, _p) in dying:
+                        try:
+                            _prop_atoms(_prop(ast.parse(t, mode="eval").body), atoms)
+                        except SyntaxError:
+                            pass
+                    for at in sorted(atoms):
+                        if _fact_mentions((at, True), ks) or (at, True) in keep or (at, False) in keep:
+                            continue
+                        for pol in (True, False):
+                            if entails(facts, at, pol):
+                                derived.append((at, pol))
+                facts = keep + derived + self._gen_facts(self.nodes[n])
             for (b, k, ef) in self.succ[n]:
                 if k not in kinds:
                     continue
                 e = (n, b)
                 if e in used:
+                    continue
+                # an edge whose condition contradicts what the path has established cannot be taken
+                if any((t, not p) in facts for (t, p) in ef):
                     continue
                 stack.append((b, path + [b], facts + list(ef), used | {e}))
         return results, (count >= limit)
@@ -545,3 +587,88 @@ def _fact_mentions(f: Fact, names: Set[str]) -> bool:
         if re.search(r"(?<![\w.])" + re.escape(n) + r"(?![\w])", text):
             return True
     return False
+
+
+# -- propositional reasoning over branch facts ------------------------------------------------------------------
+def _prop(node):
+    """boolean structure of a condition: ('not', x) | ('and', [..]) | ('or', [..]) | ('atom', text, polarity)"""
+    if isinstance(node, ast.UnaryOp) and isinstance(node.op, ast.Not):
+        return ("not", _prop(node.operand))
+    if isinstance(node, ast.BoolOp):
+        return ("and" if isinstance(node.op, ast.And) else "or", [_prop(v) for v in node.values])
+    if isinstance(node, ast.Compare) and len(node.ops) == 1:
+        flip = {ast.IsNot: ast.Is, ast.NotEq: ast.Eq, ast.NotIn: ast.In}
+        for neg, posi in flip.items():
+            if isinstance(node.ops[0], neg):
+                t = ast.Compare(left=node.left, ops=[posi()], comparators=node.comparators)
+                return ("not", ("atom", canon(ast.fix_missing_locations(ast.copy_location(t, node)))))
+    if isinstance(node, ast.NamedExpr):
+        return _prop(node.value)
+    return ("atom", canon(node))
+
+
+def _prop_atoms(p, acc):
+    if p[0] == "atom":
+        acc.add(p[1])
+    elif p[0] == "not":
+        _prop_atoms(p[1], acc)
+    else:
+        for x in p[1]:
+            _prop_atoms(x, acc)
+
+
+def _prop_eval(p, val):
+    if p[0] == "atom":
+        return val[p[1]]
+    if p[0] == "not":
+        return not _prop_eval(p[1], val)
+    if p[0] == "and":
+        return all(_prop_eval(x, val) for x in p[1])
+    return any(_prop_eval(x, val) for x in p[1])
+
+
+def entails(facts, text, pol=True, max_atoms=12):
+    """Do the branch facts (atomic and compound (text, polarity) pairs, as the CFG records them) imply that the condition `text` has truth value
+    `pol`?  Decided by enumerating the truth assignments of the atoms (conditions are treated as uninterpreted propositions; the facts of one path
+    are consistent by construction because assignments kill the facts that mention the assigned name).  None if too many atoms."""
+    import itertools
+    try:
+        goal = _prop(ast.parse(text, mode="eval").body)
+    except SyntaxError:
+        return False
+    forms = []
+    for (t, p) in facts:
+        try:
+            f = _prop(ast.parse(t, mode="eval").body)
+        except SyntaxError:
+            continue
+        forms.append(f if p else ("not", f))
+    atoms = set()
+    _prop_atoms(goal, atoms)
+    rel = []
+    # only facts that share atoms (transitively) with the goal matter
+    frontier = set(atoms)
+    pool = list(forms)
+    changed = True
+    while changed:
+        changed = False
+        for f in list(pool):
+            a = set()
+            _prop_atoms(f, a)
+            if a & frontier:
+                rel.append(f)
+                pool.remove(f)
+                if not a <= frontier:
+                    frontier |= a
+                changed = True
+    names = sorted(frontier)
+    if len(names) > max_atoms:
+        return None
+    sat = False
+    for bits in itertools.product((False, True), repeat=len(names)):
+        val = dict(zip(names, bits))
+        if all(_prop_eval(f, val) for f in rel):
+            sat = True
+            if _prop_eval(goal, val) != pol:
+                return False
+    return sat
